@@ -58,10 +58,10 @@ D = {  # id: (property, breaks, needs, strengthened-note)
  "C06-2": ("C06", "cac.Valid size bound 8 bytes too generous (hasher truncation hides the surplus)", "a maximum-size chunk followed by 1..8 arbitrary bytes", ""),
  "C08-1": ("C08", "decrypt length loop rounds up once and then only divides", "intermediate chunk two or more levels up whose span is not a multiple of the child subtree size", ""),
  "C08-2": ("C08", "Encrypt returns 0 bytes for a 0-byte payload, skipping the padding", "encrypted empty file", ""),
- "C09-1": ("C09", "processChunkAddresses decides data-chunk-ness once per intermediate chunk", "chunk count = 1 mod Branches (carried-up lone chunk), e.g. 8193 chunks", "MISSED — strengthening in progress (fix-trav)"),
+ "C09-1": ("C09", "processChunkAddresses decides data-chunk-ness once per intermediate chunk", "chunk count = 1 mod Branches (carried-up lone chunk), e.g. 8193 chunks", "missed at first; caught after fix-trav (carried-lone-chunk tries at real constants / big manifest nodes + loadsave round trip)"),
  "C09-2": ("C09", "manifest IterateAddresses skips entries on nodes that are also edge nodes", "one stored path a proper prefix of another", ""),
  "C10-1": ("C10", "Lookup tests len(Entry()) == 0 instead of IsValueType", "store/reload, then lookup of a branch point; zero-reference entries", ""),
- "C10-2": ("C10", "loadsave.Load single-chunk fast path checks the payload length, not the span", "a manifest node blob larger than one chunk", "MISSED — strengthening in progress (fix-trav)"),
+ "C10-2": ("C10", "loadsave.Load single-chunk fast path checks the payload length, not the span", "a manifest node blob larger than one chunk", "missed at first; caught after fix-trav (carried-lone-chunk tries at real constants / big manifest nodes + loadsave round trip)"),
  "C11-1": ("C11", "single-chunk Put(ModePutUploadPin) of a stored chunk takes the exists fast path: pin counter not incremented", "upload-pin twice, remove once", ""),
  "C11-2": ("C11", "putRequest writes the chunk data directly instead of in the batch", "request put with a root context whose root is not stored (the put fails)", ""),
  "C36-1": ("C36", "file keystore ImportKey no longer checks the password of the key it replaces", "import under a different password over an existing name", ""),
